@@ -8,7 +8,8 @@ The model (`Model/C18.lean`, executed by the driver at `Float`) is `nnStats`: fo
 tomogram (ascending), every rank `i < min k #candidates`, every query of the first list in list order,
 one row built by `mkRow` from the query and its `i`-th nearest candidate (`knnIdx`: candidates sorted by
 squared distance of complete positions, first `k`). The theorems hold over every commutative ring with a
-linear order (no compatibility between the two is needed), for all lists, all `k`, all pixel sizes. -/
+linear order (no compatibility between the two is needed; only `distances_ascending` asks for an ordered ring, and the
+theorems of the last section are over ℝ), for all lists, all `k`, all pixel sizes. -/
 namespace CryoCat.C18
 variable {α : Type}
 
@@ -39,8 +40,26 @@ theorem knn_query_documented :
 /-- the inverse orientation is `from_euler("zxz", -[psi, theta, phi])` of the QUERY particle, in both functions -/
 theorem inverse_angles_documented :
     Gen.C18.invAnglesDistances = "-fm_a.df[['psi','theta','phi']].values" ∧
-    Gen.C18.invAnglesRotations = "-fm_a.get_feature(['psi','theta','phi'])" :=
-  ⟨rfl, rfl⟩
+    Gen.C18.invAnglesRotations = "-fm_a.get_feature(['psi','theta','phi'])" ∧
+    Gen.C18.invColumnsDistances = ["psi", "theta", "phi"] ∧ Gen.C18.invColumnsRotations = ["psi", "theta", "phi"] :=
+  ⟨rfl, rfl, rfl, rfl⟩
+
+/-- **column access inside the model.** The model's orientation is `from_euler("zxz", ·)` of the columns `get_angles` reads
+(the regenerated `Gen.C18.angleColumns`), and the model's inverse orientation is `from_euler("zxz", ·)` of the NEGATED columns
+that the two functions read today (the regenerated `Gen.C18.invColumnsDistances` / `invColumnsRotations`): reordering either
+column list in the source changes the left-hand sides, not the model, and the equation stops holding. -/
+theorem orientation_from_columns [CommRing α] (p : Pt α) :
+    fromEuler (getFeature Gen.C18.angleColumns p) = some (rot p) ∧
+    fromEuler ((getFeature Gen.C18.invColumnsDistances p).map Ang.neg) = some (rotInv p) ∧
+    fromEuler ((getFeature Gen.C18.invColumnsRotations p).map Ang.neg) = some (rotInv p) :=
+  ⟨rfl, rfl, rfl⟩
+
+/-- `get_motl_subset(f, feature_id="tomo_id")` with ONE requested value — the only way `nnana` calls it — is the model's
+`subset`: the particles of that tomogram in list order; for any list of values a particle is in the result iff it is in the
+list and its tomogram is among the values -/
+theorem motl_subset_is_filter (t : Int) (vals : List Int) (l : List (Pt α)) (p : Pt α) :
+    motlSubset [t] l = subset t l ∧ (p ∈ motlSubset vals l ↔ p ∈ l ∧ p.tomo ∈ vals) :=
+  ⟨motlSubset_single t l, mem_motlSubset vals l p⟩
 
 /-- every Euler conversion in the two functions is extrinsic `"zxz"` in degrees -/
 theorem euler_convention_documented :
@@ -106,7 +125,10 @@ theorem body_indices_documented : Gen.C18.bodyIndices = [
   ".ordered_idx=np.arange(0,nn_idx.shape[0],1)",
   ".return(ordered_idx,nn_idx.reshape((nn_idx.shape[0],nn_count)),nn_dist.reshape((nn_idx.shape[0],nn_count)),nn_count)"] := rfl
 
-/-- the whole body of `get_nn_distances`, including the `isinstance(·, str)` branches no case executes -/
+/-- the whole body of `get_nn_distances`, including the `isinstance(·, str)` branches no case executes and the
+empty-result path taken when the two lists share no tomogram (`k1_model_returns_empty`). Annotations are dropped,
+message texts are written `<msg>`, every spelling of `len(X) == 0` is written that way, locals are renamed by binding
+occurrence and never-read locals are written `_` — none of these can change behaviour. -/
 theorem body_distances_documented : Gen.C18.bodyDistances = [
   "def get_nn_distances(motl_a,motl_nn,pixel_size=1.0,nn_number=1,feature='tomo_id',rotation_type='angular_distance')",
   ".if isinstance(motl_a,str)",
@@ -149,6 +171,8 @@ theorem body_distances_documented : Gen.C18.bodyDistances = [
   "...rotated_coord.append(rot.apply(c_coord))",
   "...subtomo_idx_nn.append(subtomos_nn[nn_idx[:,i]])",
   "...subtomo_idx.append(subtomos_a[idx])",
+  ".if len(nn_dist)==0",
+  "..return(np.empty((0,3)),np.empty((0,3)),np.empty(0),np.empty(0),np.empty(0),np.empty(0))",
   ".return(np.vstack(centered_coord),np.vstack(rotated_coord),np.concatenate(nn_dist),np.concatenate(angular_distances),np.concatenate(subtomo_idx),np.concatenate(subtomo_idx_nn))"] := rfl
 
 /-- the whole body of `get_nn_rotations` -/
@@ -172,6 +196,8 @@ theorem body_rotations_documented : Gen.C18.bodyRotations = [
   "..for i in range(nn_count)",
   "...rot_nn=srot.from_euler('zxz',angles=angles_nn[idx_nn[:,i],:],degrees=True)",
   "...nn_rotations.append(rot_to_zero*rot_nn)",
+  ".if len(nn_rotations)==0",
+  "..return(np.empty((0,3)),np.empty((0,3)))",
   ".nn_rotations=srot.concatenate(nn_rotations)",
   ".points_on_sphere=geom.visualize_rotations(nn_rotations,plot_rotations=False)",
   ".angles=nn_rotations.as_euler('zxz',degrees=True)",
@@ -210,7 +236,7 @@ theorem body_geom_documented :
   ".q1=np.array(rot1.as_quat(),ndmin=2)",
   ".q2=np.array(rot2.as_quat(),ndmin=2)",
   ".if q1.shape!=q2.shape",
-  "..print('Thesizeofinputrotationsdiffer!!!')",
+  "..print('<msg>')",
   "..return",
   ".angle=np.degrees(2*np.arccos(np.minimum(np.abs(np.sum(q1*q2,axis=1)),1.0)))",
   ".angle=angle.astype(float)",
@@ -233,8 +259,64 @@ theorem body_geom_documented :
   "....if rotation_type=='in_plane_distance'",
   ".....returndist_degrees_inplane",
   "....else",
-  ".....raiseUserInputError(f'Therotationtype{rotation_type}isnotsupported.')"] :=
+  ".....raiseUserInputError('<msg>')"] :=
   ⟨rfl, rfl⟩
+
+/-- the whole bodies of the helpers the analysis goes through: `geom.visualize_rotations` (image of the z axis, no plot),
+`Motl.get_motl_subset` (the rows of one tomogram, list order, positions from 0), `Motl.get_feature` (column access),
+`Motl.get_coordinates` (complete positions), `Motl.get_angles` -/
+theorem body_helpers_documented :
+    Gen.C18.bodyVisualize = [
+  "def visualize_rotations(rotations,plot_rotations=True,color_map=None,marker_size=20,alpha=1.0,radius=1.0)",
+  ".starting_point=np.array([0.0,0.0,radius])",
+  ".new_points=np.array(rotations.apply(starting_point),ndmin=2)",
+  ".if plot_rotations",
+  "..fig=plt.figure()",
+  "..ax=fig.add_subplot(projection='3d')",
+  "..if color_mapisNone",
+  "...ax.scatter(new_points[:,0],new_points[:,1],new_points[:,2],s=marker_size,alpha=alpha)",
+  "..else",
+  "...ax.scatter(new_points[:,0],new_points[:,1],new_points[:,2],s=marker_size,alpha=alpha,c=color_map)",
+  "..ax.set_xlim3d(-radius,radius)",
+  "..ax.set_ylim3d(-radius,radius)",
+  "..ax.set_zlim3d(-radius,radius)",
+  ".returnnew_points"] ∧
+    Gen.C18.bodySubset = [
+  "def get_motl_subset(self,feature_values,feature_id='tomo_id',return_df=False,reset_index=True)",
+  ".feature_values=np.atleast_1d(np.asarray(feature_values))",
+  ".new_df=Motl.create_empty_motl_df()",
+  ".for i in feature_values",
+  "..df_i=self.df.loc[self.df[feature_id]==i].copy()",
+  "..new_df=pd.concat([new_df,df_i])",
+  ".if reset_index",
+  "..new_df=new_df.reset_index(drop=True)",
+  ".if return_df",
+  "..returnnew_df",
+  ".else",
+  "..returnMotl(motl_df=new_df)"] ∧
+    Gen.C18.bodyFeature = [
+  "def get_feature(self,feature_id)",
+  ".if isinstance(feature_id,str)",
+  "..feature_id=[feature_id]",
+  ".missing_columns=set(feature_id)-set(self.df.columns)",
+  ".if missing_columns",
+  "..raiseUserInputError('<msg>')",
+  ".returnself.df[feature_id].values"] ∧
+    Gen.C18.bodyCoordinates = [
+  "def get_coordinates(self,tomo_number=None)",
+  ".if tomo_numberisNone",
+  "..coord=self.df.loc[:,['x','y','z']].values+self.df.loc[:,['shift_x','shift_y','shift_z']].values",
+  ".else",
+  "..coord=self.df.loc[self.df.loc[:,'tomo_id']==tomo_number,['x','y','z']].values+self.df.loc[self.df.loc[:,'tomo_id']==tomo_number,['shift_x','shift_y','shift_z']].values",
+  ".returncoord"] ∧
+    Gen.C18.bodyAngles = [
+  "def get_angles(self,tomo_number=None)",
+  ".if tomo_numberisNone",
+  "..angles=self.df.loc[:,['phi','theta','psi']].values",
+  ".else",
+  "..angles=self.df.loc[self.df.loc[:,'tomo_id']==tomo_number,['phi','theta','psi']].values",
+  ".returnnp.atleast_2d(angles)"] :=
+  ⟨rfl, rfl, rfl, rfl, rfl⟩
 
 /-! ### the k reported neighbours are the k closest, in ascending order -/
 
@@ -343,13 +425,29 @@ theorem tomoRows_length [CommRing α] [LinearOrder α] (S : Num α) (px : α) (k
   unfold tomoRows
   simp only [List.length_flatMap, List.length_map, List.map_const', List.sum_replicate_nat, List.length_range]
 
-/-- "distance = Euclidean distance of complete positions times the pixel size": the squared length of the
-reported offset is `px²` times the squared distance whose root (times `px`) is reported -/
+/-- The squared length of the reported offset is `px²` times the row's squared distance `d2` (a fact about vectors; first
+conjunct). The second conjunct only UNFOLDS `mkRow` (`rfl`): that the reported distance is `sqrt(d2)·px` is how the model is
+written, not a proved clause. What ties the statement's "distance = Euclidean distance of complete positions times the pixel
+size" to the source is (i) the anchor `dist[:,i]*pixel_size` (`row_expressions_documented`), (ii) the recorded assumption that
+the KD-tree returns Euclidean distances of the coordinates it was built on, checked on every run, and (iii) over ℝ
+`realNum_distance` (the reported distance squared is `px²·‖pos n − pos q‖²`). -/
 theorem offset_length [CommRing α] (S : Num α) (px : α) (tm : Int) (i j : Nat) (q n : Pt α) :
     V3.normSq (mkRow S px tm i q j n).offset = px * px * (mkRow S px tm i q j n).d2 ∧
     (mkRow S px tm i q j n).dist = S.sqrt (mkRow S px tm i q j n).d2 * px := by
   refine ⟨?_, rfl⟩
   simp only [mkRow, smul_sub_smul, normSq_smul, d2]
+
+/-- **Distance = Euclidean distance of the complete positions × pixel size**, for every square-root service that is exact
+on the squared distance at hand (`sqrt(d)·sqrt(d) = d`; the real square root is, `realNum_distance`): the reported distance
+squared is `px²·‖(n.base + n.shift) − (q.base + q.shift)‖²`. -/
+theorem distance_is_scaled_euclid [CommRing α] (S : Num α) (px : α) (tm : Int) (i j : Nat) (q n : Pt α)
+    (hs : S.sqrt (d2 q n) * S.sqrt (d2 q n) = d2 q n) :
+    (mkRow S px tm i q j n).dist * (mkRow S px tm i q j n).dist
+      = px * px * V3.normSq ((n.base + n.shift) - (q.base + q.shift)) := by
+  have e : d2 q n = V3.normSq ((n.base + n.shift) - (q.base + q.shift)) := rfl
+  simp only [mkRow]
+  rw [← e]
+  linear_combination (px * px) * hs
 
 /-! ### the inverse orientation -/
 
@@ -392,13 +490,65 @@ theorem nnStats_rigid [CommRing α] [LinearOrder α] (S : Num α) (px : α) (k :
     nnStats S px k a' nn' = (nnStats S px k a nn).map (Row.turn Q) :=
   nnStats_moved S px k hQ ha hn
 
-/-- what `Row.turn` leaves alone: everything but the tomogram-frame offset -/
+/-- Reading aid for `nnStats_rigid` (thirteen `rfl`: `Row.turn` is a record update of the field `offset`): what
+`Row.turn` leaves alone is everything but the tomogram-frame offset. Not a clause of the statement by itself — the clause is
+`nnStats_rigid`, whose right-hand side this lemma lets one read field by field. -/
 theorem turn_keeps [CommRing α] (Q : M3 α) (r : Row α) :
     (r.turn Q).tomo = r.tomo ∧ (r.turn Q).rank = r.rank ∧ (r.turn Q).sub = r.sub ∧ (r.turn Q).subNn = r.subNn ∧
     (r.turn Q).nnIdx = r.nnIdx ∧ (r.turn Q).d2 = r.d2 ∧ (r.turn Q).dist = r.dist ∧ (r.turn Q).frame = r.frame ∧
     (r.turn Q).rel = r.rel ∧ (r.turn Q).tr = r.tr ∧ (r.turn Q).skewSq = r.skewSq ∧ (r.turn Q).ang = r.ang ∧
     (r.turn Q).offset = Q.apply r.offset :=
   ⟨rfl, rfl, rfl, rfl, rfl, rfl, rfl, rfl, rfl, rfl, rfl, rfl, rfl⟩
+
+/-- **The reported neighbour order is invariant under rigid motion when distances are pairwise distinct** — for ANY
+neighbour search, not only the model's. Let `out` be what some search reports for query `q` among the candidates `cn`, and
+`out'` what some (possibly different) search reports after both were moved by the same `(Q, t)`. If both answers are
+correct (`KnnSpec`: the `min k n` closest, ascending) and no two candidates are equally far from `q`, then `out' = out`:
+the same candidate positions in the same order. (With ties a correct search may legitimately answer differently; the
+model's own deterministic answer is invariant even then, `nnStats_rigid`.) -/
+theorem neighbour_order_rigid [CommRing α] [LinearOrder α] {Q : M3 α} {t : V3 α} (k : Nat) {q q' : Pt α}
+    {cn cn' : List (Pt α)} (hQ : Q.Orth) (hq : Moved Q t q q') (hc : List.Forall₂ (Moved Q t) cn cn')
+    (out out' : List Nat) (hties : NoTies cn.length (keyOf q cn))
+    (h : KnnSpec k cn.length (keyOf q cn) out) (h' : KnnSpec k cn'.length (keyOf q' cn') out') :
+    out' = out ∧ NoTies cn'.length (keyOf q' cn') := by
+  rw [keyOf_moved hQ hq hc, ← hc.length_eq] at h' ⊢
+  exact ⟨knn_unique' hties h' h, hties⟩
+
+/-- **Any correct neighbour search gives the model's table.** If the search `nb` (the KD-tree) answers every query of a
+common tomogram with a list meeting `KnnSpec` and no query has two candidates at the same distance, the table assembled
+from ITS answers is the model's table `nnStats` — so everything proved about `nnStats` holds for it. This is the exact
+content of the recorded assumption "KD-tree = brute force": only `KnnSpec` of the tree's answers is needed, and that is
+what the verified checker `checkKnn` decides on every run. -/
+theorem nnStatsWith_eq [CommRing α] [LinearOrder α] (nb : Pt α → List (Pt α) → List Nat) (S : Num α) (px : α) (k : Nat)
+    (a nn : List (Pt α)) (h : CorrectSearch nb k a nn) : nnStatsWith nb S px k a nn = nnStats S px k a nn :=
+  nnStatsWith_eq' nb S px k a nn h
+
+/-- **Rigid-motion invariance for any two correct neighbour searches** (`k` neighbours, any `k`): the table built from the
+answers of `nb` on the original lists and the table built from the answers of `nb'` on the moved lists are the same table
+up to the co-rotation of the tomogram-frame offsets, provided both searches are correct and distances are pairwise distinct
+on both sides. -/
+theorem nnStats_rigid_any_search [CommRing α] [LinearOrder α] (nb nb' : Pt α → List (Pt α) → List Nat) (S : Num α) (px : α)
+    (k : Nat) {Q : M3 α} {t : V3 α} {a a' nn nn' : List (Pt α)} (hQ : Q.Orth)
+    (ha : List.Forall₂ (Moved Q t) a a') (hn : List.Forall₂ (Moved Q t) nn nn')
+    (h : CorrectSearch nb k a nn) (h' : CorrectSearch nb' k a' nn') :
+    nnStatsWith nb' S px k a' nn' = (nnStatsWith nb S px k a nn).map (Row.turn Q) := by
+  rw [nnStatsWith_eq nb' S px k a' nn' h', nnStatsWith_eq nb S px k a nn h]
+  exact nnStats_moved S px k hQ ha hn
+
+/-- **Lists that share no tomogram give the empty table** (the documented "work only with the intersection"). This is what
+the model answers on the class of the formerly open finding C18-K1; the witness of the defect was on the IMPLEMENTATION side
+(`ValueError: need at least one array to concatenate` from `np.vstack([])`, replayed by the harness on the unrepaired
+source), the model never raised. With C18-fix-1 the source has the empty-result path (`body_distances_documented`,
+`body_rotations_documented`) and the harness compares the real empty table with this one. -/
+theorem k1_model_returns_empty [CommRing α] [LinearOrder α] (S : Num α) (px : α) (k : Nat) (a nn : List (Pt α))
+    (h : ∀ p ∈ a, ∀ p' ∈ nn, p.tomo ≠ p'.tomo) : nnStats S px k a nn = [] := by
+  unfold nnStats
+  rw [features_nil_of_disjoint]
+  · rfl
+  · intro tm hta htn
+    obtain ⟨p, hp, rfl⟩ := List.mem_map.1 hta
+    obtain ⟨p', hp', e⟩ := List.mem_map.1 htn
+    exact h p hp p' hp' e.symm
 
 /-! ### the angular distance IS the rotation angle of the relative orientation (over ℝ, through C06)
 
@@ -491,6 +641,44 @@ of `angular_distance_is_rotation_angle` / `nnStats_angular_real` -/
 noncomputable example : ∃ p : Pt ℝ, p.HasAngles 1 2 3 ∧ p.shift = ⟨1, 0, -1⟩ :=
   ⟨{ tomo := 3, sub := 11, base := ⟨1, 2, 3⟩, shift := ⟨1, 0, -1⟩, phi := angOf 1, theta := angOf 2, psi := angOf 3 },
     ⟨rfl, rfl, rfl⟩, rfl⟩
+
+/-- two lists without a common tomogram (hypothesis of `k1_model_returns_empty`) -/
+example : ∀ p ∈ [({ tomo := 1, sub := 1, base := ⟨0, 0, 0⟩, shift := ⟨0, 0, 0⟩, phi := ⟨1, 0⟩, theta := ⟨1, 0⟩, psi := ⟨1, 0⟩ } : Pt Int)],
+    ∀ p' ∈ [({ tomo := 2, sub := 1, base := ⟨0, 0, 0⟩, shift := ⟨0, 0, 0⟩, phi := ⟨1, 0⟩, theta := ⟨1, 0⟩, psi := ⟨1, 0⟩ } : Pt Int)],
+    p.tomo ≠ p'.tomo := by
+  intro p hp p' hp'
+  simp only [List.mem_singleton] at hp hp'
+  subst hp; subst hp'
+  decide
+
+/-- the model's own search is a correct search when there are no ties (hypothesis of `nnStatsWith_eq` /
+`nnStats_rigid_any_search`): two queries and three candidates on a line, all distances distinct -/
+example : CorrectSearch (α := Int) (neighbours 2) 2
+    [{ tomo := 1, sub := 1, base := ⟨0, 0, 0⟩, shift := ⟨0, 0, 0⟩, phi := ⟨1, 0⟩, theta := ⟨1, 0⟩, psi := ⟨1, 0⟩ }]
+    [{ tomo := 1, sub := 7, base := ⟨1, 0, 0⟩, shift := ⟨0, 0, 0⟩, phi := ⟨1, 0⟩, theta := ⟨1, 0⟩, psi := ⟨1, 0⟩ },
+     { tomo := 1, sub := 8, base := ⟨3, 0, 0⟩, shift := ⟨0, 0, 0⟩, phi := ⟨1, 0⟩, theta := ⟨1, 0⟩, psi := ⟨1, 0⟩ },
+     { tomo := 1, sub := 9, base := ⟨-2, 0, 0⟩, shift := ⟨0, 0, 0⟩, phi := ⟨1, 0⟩, theta := ⟨1, 0⟩, psi := ⟨1, 0⟩ }] := by
+  intro tm q hq
+  refine ⟨knnIdx_spec' _ _ _, ?_⟩
+  by_cases htm : tm = 1
+  · subst htm
+    have hq' : q = { tomo := 1, sub := 1, base := ⟨0, 0, 0⟩, shift := ⟨0, 0, 0⟩, phi := ⟨1, 0⟩, theta := ⟨1, 0⟩, psi := ⟨1, 0⟩ } := by
+      simpa [subset] using hq
+    subst hq'
+    intro i j hi hj
+    have hi' : i < 3 := hi
+    have hj' : j < 3 := hj
+    interval_cases i <;> interval_cases j <;> decide
+  · have : subset tm
+        [({ tomo := 1, sub := 1, base := ⟨0, 0, 0⟩, shift := ⟨0, 0, 0⟩, phi := ⟨1, 0⟩, theta := ⟨1, 0⟩, psi := ⟨1, 0⟩ } : Pt Int)] = [] := by
+      simp [subset, Ne.symm htm]
+    rw [this] at hq
+    exact absurd hq (List.not_mem_nil)
+
+/-- an exact square root of a squared distance (hypothesis of `distance_is_scaled_euclid`): positions 3-4-0 apart, root 5 -/
+example : (5 : Int) * 5 = d2 (α := Int)
+    { tomo := 1, sub := 1, base := ⟨0, 0, 0⟩, shift := ⟨1, 0, 0⟩, phi := ⟨1, 0⟩, theta := ⟨1, 0⟩, psi := ⟨1, 0⟩ }
+    { tomo := 1, sub := 2, base := ⟨3, 4, 0⟩, shift := ⟨1, 0, 0⟩, phi := ⟨1, 0⟩, theta := ⟨1, 0⟩, psi := ⟨1, 0⟩ } := by decide
 
 /-- distinct keys exist -/
 example : NoTies 4 (fun i => (3 * i : Int)) := by
